@@ -48,6 +48,7 @@ type inlineInfo struct {
 }
 
 var lastInline = &inlineInfo{}
+var lastInlineStreams = &inlineInfo{}
 
 // expandedAway: names (as in known_funcs.go) of new helpers every reference to
 // which was expanded. Their bodies are analysed inside their callers, with the
@@ -189,9 +190,15 @@ func analyseFuncBody(p *packages.Package, ftype *ast.FuncType, body *ast.BlockSt
 // inlineOverlay computes the overlay for package dir (relative to repoDir),
 // given the set of known function names. It returns nil when nothing is
 // expanded.
-func inlineOverlay(dir string, known map[string]bool) map[string][]byte {
+// namedOnly: expand only newly declared named functions (function literals are left alone and
+// nothing is recorded in the pub-specific tables); used for package streams.
+func inlineOverlay(dir string, known map[string]bool, namedOnly bool) map[string][]byte {
 	info := &inlineInfo{}
-	lastInline = info
+	if !namedOnly {
+		lastInline = info
+	} else {
+		lastInlineStreams = info
+	}
 	overlay := map[string][]byte{}
 	counter := 0
 	// cheap pre-check (syntax only): is any function declared that is not known?
@@ -213,7 +220,9 @@ func inlineOverlay(dir string, known map[string]bool) map[string][]byte {
 			}
 		}
 	}
-	_ = anyNew // function literals are candidates too: always look
+	if namedOnly && !anyNew {
+		return nil
+	}
 	for round := 0; round < inlineRounds; round++ {
 		cfg := &packages.Config{Mode: packages.LoadSyntax, Dir: repoDir, Env: loadEnv(), Overlay: overlay}
 		if tags := os.Getenv("VERIF_TAGS"); tags != "" {
@@ -262,7 +271,7 @@ func inlineOverlay(dir string, known map[string]bool) map[string][]byte {
 		closureVars := map[types.Object]*helperInfo{}
 		closureDefs := map[types.Object]*ast.AssignStmt{}
 		for _, f := range p.Syntax {
-			if isTestFile(p.Fset, f.Pos()) {
+			if isTestFile(p.Fset, f.Pos()) || namedOnly {
 				continue
 			}
 			for _, d := range f.Decls {
@@ -340,7 +349,7 @@ func inlineOverlay(dir string, known map[string]bool) map[string][]byte {
 		if len(helpers) == 0 && len(litHelpers) == 0 && len(closureVars) == 0 {
 			break
 		}
-		if round == 0 {
+		if round == 0 && !namedOnly {
 			// a known function that lost its only closure and now calls exactly one new function,
 			// which nobody else references: that function stands for the closure
 			refCount := map[types.Object]int{}
@@ -805,7 +814,9 @@ func inlineOverlay(dir string, known map[string]bool) map[string][]byte {
 				continue
 			}
 			if o := fp.TypesInfo.Defs[fd.Name]; o != nil && refs[o] == 0 {
-				expandedAway[declName(fd)] = true
+				if !namedOnly {
+					expandedAway[declName(fd)] = true
+				}
 				info.Away = append(info.Away, declName(fd))
 			}
 		}
